@@ -218,7 +218,7 @@ func ipv4NetFromReversed(arpa string) (pref netip.Prefix, err error) {
 		if err != nil {
 			// Don't wrap the error, since it's informative enough as is.
 			return netip.Prefix{}, err
-		} else if octet64 != 0 && addr[octetIdx] == '0' {
+		} else if addr[octetIdx] == '0' && len(addr)-octetIdx > 1 {
 			// Octets of an ARPA domain name shouldn't contain leading zero
 			// except an octet itself equals zero.
 			//
